@@ -1,10 +1,219 @@
-(* C02 (work in progress) *)
-From Coq Require Import ZArith List Bool.
-Require Import PW.lib.Val PW.model.Regex PW.proofs.RegexProofs.
+(* C02  Requests reach exactly the endpoint the routing rules select.
+   Statements only; every proof is [exact <lemma of proofs/RegexProofs.v or
+   proofs/RoutingProofs.v>].
+
+   U : uclass is the classification of the code points >= 128 by \d \w \s
+   (Python takes it from the Unicode database); every theorem holds for
+   every U.  [Matches U r s rest]: r matches the text s when [rest] follows
+   (whole string: rest = []); [MatchesPrefix]: what pattern.match decides.
+   [select] is the model of handler_from_table / handler_from_default,
+   [exec] of the registration calls, [compile_text] of the pattern text
+   set_route hands to re.compile, [parse_regex] of re.compile on the
+   supported subset, [re_match] of pattern.match (first parse in CPython's
+   backtracking order, with its captures). *)
+From Coq Require Import ZArith List Bool String.
+Require Import PW.lib.Val PW.model.Regex PW.model.Routing
+        PW.proofs.RegexProofs PW.proofs.RoutingProofs.
 Import ListNotations.
+Open Scope string_scope.
+Open Scope list_scope.
 Open Scope Z_scope.
 
+(* ------------------------------------------------------------ the matcher *)
+(* the derivative acceptor decides the relational semantics, whole string *)
 Theorem C02_accepts_correct :
   forall U s r, accepts U r s = true <-> Matches U r s [].
 Proof. exact accepts_correct. Qed.
 Print Assumptions C02_accepts_correct.
+
+(* ... and some prefix (start-anchored match) *)
+Theorem C02_accepts_prefix_correct :
+  forall U s r,
+    accepts_prefix U r s = true <->
+    exists s1 s2, s = s1 ++ s2 /\ Matches U r s1 s2.
+Proof. exact accepts_prefix_correct. Qed.
+Print Assumptions C02_accepts_prefix_correct.
+
+(* the backtracking matcher (the one that yields the handler arguments)
+   reports a match exactly when a prefix is in the language ... *)
+Theorem C02_match_iff_language :
+  forall U r s,
+    re_match U r s <> None <-> exists s1 s2, s = s1 ++ s2 /\ Matches U r s1 s2.
+Proof. exact re_match_some_iff. Qed.
+Print Assumptions C02_match_iff_language.
+
+(* ... and what it reports is a parse of that prefix with exactly the
+   captures this parse writes *)
+Theorem C02_match_reports_a_parse :
+  forall U r s c rest,
+    re_match U r s = Some (c, rest) ->
+    exists s1, s = s1 ++ rest /\ MatchesC U r s1 rest [] c.
+Proof. exact re_match_sound. Qed.
+Print Assumptions C02_match_reports_a_parse.
+
+(* ------------------------------------------------------------- precedence *)
+(* the dispatcher is the documented precedence: exact static path (handler
+   or 405), else the first pattern in registration order whose language
+   contains a prefix of the path and that is registered for the method,
+   else file / directory / 403 under the document root (HEAD, GET), the
+   debug page, the per-method default handler, 404 *)
+Theorem C02_select_precedence :
+  forall U a debug root fs method raw,
+    select U a debug root fs method raw =
+    select_spec U a debug root fs method raw.
+Proof. exact select_precedence. Qed.
+Print Assumptions C02_select_precedence.
+
+Theorem C02_static_beats_pattern :
+  forall U a debug root fs method raw mt,
+    lget (req_path raw) (a_static a) = Some mt ->
+    select U a debug root fs method raw =
+    match zget (method_number method) mt with
+    | Some h => SHandler h [] [] (req_path raw)
+    | None => S405
+    end.
+Proof. exact static_beats_pattern. Qed.
+Print Assumptions C02_static_beats_pattern.
+
+Theorem C02_first_pattern_wins :
+  forall U a debug root fs method raw l1 p l2 e,
+    let m := method_number method in
+    let path := req_path raw in
+    lget path (a_static a) = None ->
+    a_pats a = l1 ++ p :: l2 ->
+    (forall q, In q l1 ->
+               ~ (MatchesPrefix U (p_re q) path /\ zmem m (p_tab q) = true)) ->
+    MatchesPrefix U (p_re p) path ->
+    zget m (p_tab p) = Some e ->
+    exists c rest,
+      re_match U (p_re p) path = Some (c, rest) /\
+      select U a debug root fs method raw = run_entry U p e c.
+Proof. exact first_pattern_wins. Qed.
+Print Assumptions C02_first_pattern_wins.
+
+(* a matching pattern that is not registered for the method is passed over *)
+Theorem C02_method_mismatch_falls_through :
+  forall U m path p rest,
+    zget m (p_tab p) = None ->
+    select_pat U m path (p :: rest) = select_pat U m path rest.
+Proof. exact method_mismatch_falls_through. Qed.
+Print Assumptions C02_method_mismatch_falls_through.
+
+Theorem C02_no_route_fallback :
+  forall U a debug root fs method raw,
+    let m := method_number method in
+    let path := req_path raw in
+    lget path (a_static a) = None ->
+    (forall q, In q (a_pats a) ->
+               ~ (MatchesPrefix U (p_re q) path /\ zmem m (p_tab q) = true)) ->
+    select U a debug root fs method raw = fallback a debug root fs m path.
+Proof. exact no_route_fallback. Qed.
+Print Assumptions C02_no_route_fallback.
+
+Theorem C02_unknown_method_is_get :
+  forall U a debug root fs tok raw,
+    lget tok method_table = None ->
+    select U a debug root fs tok raw = select U a debug root fs (s2l "GET") raw.
+Proof. exact unknown_method_is_get. Qed.
+Print Assumptions C02_unknown_method_is_get.
+
+(* registering a pattern again keeps its place; a new one goes last *)
+Theorem C02_reregistration_keeps_position :
+  forall a text f mask cvs rule a',
+    set_regular a text f mask cvs rule = Ok a' ->
+    map p_text (a_pats a') =
+    if pat_mem text (a_pats a) then map p_text (a_pats a)
+    else map p_text (a_pats a) ++ [text].
+Proof. exact reregistration_keeps_position. Qed.
+Print Assumptions C02_reregistration_keeps_position.
+
+(* ... and changes the handler exactly at (that pattern, the bits of mask) *)
+Theorem C02_registration_exact :
+  forall a text f mask cvs rule a',
+    set_regular a text f mask cvs rule = Ok a' ->
+    forall key b,
+      handler_at a' key b =
+      if lz_eqb text key && existsb (Z.eqb b) meths && has_bit mask b
+      then Some f else handler_at a key b.
+Proof. exact set_regular_exact. Qed.
+Print Assumptions C02_registration_exact.
+
+(* ------------------------------------------------------ <name:filter> routes *)
+(* the pattern text of a group route, parsed as re.compile does, IS the
+   structured expression (literals, one named group per <name:filter>
+   holding the filter's expression, \Z) whenever the structured compiler
+   accepts the route (literals without metacharacters, ASCII identifiers as
+   names, filter expressions in the supported subset without end anchors) *)
+Theorem C02_compile_bridge :
+  forall U F uri r n,
+    compile_route U F uri = Some (r, n) ->
+    exists t, compile_text U F uri = Ok t /\ parse_regex t = Some (r, n).
+Proof. exact compile_bridge. Qed.
+Print Assumptions C02_compile_bridge.
+
+(* the heart: such a route matches exactly the paths that consist of its
+   literal text and of segments accepted, as whole strings, by its filters;
+   nothing may precede, follow or be missing *)
+Theorem C02_route_language :
+  forall U F uri r n p,
+    compile_route U F uri = Some (r, n) ->
+    (accepts U r p = true <-> InRoute U F uri p).
+Proof. exact route_language. Qed.
+Print Assumptions C02_route_language.
+
+(* the dispatcher uses pattern.match, anchored at the start only: same
+   language, because the text ends in \Z (no slack for a trailing newline:
+   p ++ "\n" is matched iff p ++ "\n" itself is such a reading) *)
+Theorem C02_route_language_match :
+  forall U F uri r n p,
+    compile_route U F uri = Some (r, n) ->
+    (re_match U r p <> None <-> InRoute U F uri p).
+Proof. exact route_language_match. Qed.
+Print Assumptions C02_route_language_match.
+
+(* /i/<n:int>: "/i/12" yes; "/i/12\n", "/i/12/", "/I/12" no *)
+Theorem C02_int_route_newline :
+  forall U, exists r n,
+    compile_route U init_filters (s2l "/i/<n:int>") = Some (r, n) /\
+    re_match U r (s2l "/i/12") <> None /\
+    re_match U r (s2l "/i/12" ++ [10]) = None /\
+    re_match U r (s2l "/i/12/") = None /\
+    re_match U r (s2l "/I/12") = None.
+Proof. exact int_route_newline. Qed.
+Print Assumptions C02_int_route_newline.
+
+(* an inline expression reaches re.compile as written, case preserved
+   (l1: literal text without "<"; no filter is called ":re:" ++ E) *)
+Theorem C02_inline_re_verbatim :
+  forall U F l1 nm E l2 t,
+    forallb (fun c => negb (c =? 60)) l1 = true ->
+    nm <> [] -> forallb (is_word U) nm = true ->
+    E <> [] -> forallb not_gt E = true ->
+    lget (str_lower (s2l ":re:" ++ E)) F = None ->
+    compile_text U F (l1 ++ [60] ++ nm ++ s2l ":re:" ++ E ++ [62] ++ l2) = Ok t ->
+    exists t2, t = l1 ++ s2l "(?P<" ++ nm ++ [62] ++ E ++ [41] ++ t2.
+Proof. exact inline_re_verbatim. Qed.
+Print Assumptions C02_inline_re_verbatim.
+
+(* with the built-in table the side condition holds for every E *)
+Theorem C02_builtin_no_re_key :
+  forall E, E <> [] -> lget (str_lower (s2l ":re:" ++ E)) init_filters = None.
+Proof. exact builtin_no_re_key. Qed.
+Print Assumptions C02_builtin_no_re_key.
+
+(* the handler's arguments: the path is read as literal text and segments
+   vs accepted by the filters, and the converters are applied to these
+   segments, in declaration order, under the declared names
+   ([convert_all]: what run_entry computes from match.group(name);
+   [convert_segs cvs vs]: converter i applied to segment i) *)
+Theorem C02_captures_by_name :
+  forall U F uri r n cvs p c rest,
+    compile_route U F uri = Some (r, n) ->
+    converters F (scan_uri U uri) = Ok cvs ->
+    re_match U r p = Some (c, rest) ->
+    exists vs,
+      rest = [] /\ Segments U F (scan_uri U uri) p vs /\
+      map fst cvs = grp_names (scan_uri U uri) /\
+      convert_all U r c cvs = convert_segs U cvs vs.
+Proof. exact captures_by_name. Qed.
+Print Assumptions C02_captures_by_name.
